@@ -627,6 +627,110 @@ def rule_decorated(ctx):
     need(n >= 40, R, "callees reached through filter_kwargs not enumerated")
 
 
+PARAM_KINDS = ("POSITIONAL_ONLY", "POSITIONAL_OR_KEYWORD", "VAR_POSITIONAL", "KEYWORD_ONLY", "VAR_KEYWORD")
+
+
+def _kind_truth(c, K):
+    """truth of a test on `param.kind` for a parameter of kind K (None when the test reads anything else)"""
+    if c.op == "un" and c.a[0] == "not":
+        r = _kind_truth(c.a[1], K)
+        return None if r is None else (not r)
+    if c.op == "bool":
+        rs = [_kind_truth(x, K) for x in c.a[1:]]
+        if any(r is None for r in rs):
+            return None
+        return all(rs) if c.a[0] == "and" else any(rs)
+    if c.op == "cmp":
+        def kind_const(z):
+            return z.a[1] if z.op == "attr" and z.a[1] in PARAM_KINDS else None
+
+        def is_kind(z):
+            return z.op == "attr" and z.a[1] == "kind"
+
+        op, l, r = c.a
+        if op in ("==", "!=", "is", "isnot"):
+            for u, v in ((l, r), (r, l)):
+                if is_kind(u) and kind_const(v) is not None:
+                    res = kind_const(v) == K
+                    return res if op in ("==", "is") else (not res)
+        if op in ("in", "notin") and is_kind(l) and r.op in ("tuple", "list", "set") and all(kind_const(z) is not None for z in r.a):
+            res = K in {kind_const(z) for z in r.a}
+            return res if op == "in" else (not res)
+    return None
+
+
+def _leaf_for_kind(body, K, depth=0):
+    if depth > 12:
+        return None
+    if body.op == "ite":
+        t = _kind_truth(body.a[0], K)
+        if t is None:
+            return None
+        return _leaf_for_kind(body.a[1] if t else body.a[2], K, depth + 1)
+    return body
+
+
+def _filter_by_kind(kwt, kwa, fn_t, s):
+    """The forwarded mapping is  kwargs if ACCEPTS else {k: v for k, v in kwargs.items() if k in NAMES}  with ACCEPTS and
+    NAMES accumulated by one loop over inspect.signature(callee).parameters: decide, for each of the five parameter
+    kinds, whether a parameter of that kind switches the filter off / contributes its name.
+    -> (kinds that set ACCEPTS, kinds whose names are kept, items-form ok, extra conditions) or None"""
+    if kwt.op != "ite":
+        return None
+    A, t1, t2 = kwt.a
+    if t1 is kwa:
+        D = t2
+    elif t2 is kwa:
+        return None
+    else:
+        return None
+    if not (A.op == "loop" and D.op == "comp" and D.a[0] == "dict" and len(D.a[2]) == 1):
+        return None
+    lid = A.a[0]
+    it = s.loops.get(lid, (None, None))[1]
+    if it is None or not (it.op == "call" and call_name(it) in (".items", ".values") and it.a[1] and it.a[1][0].op == "attr" and it.a[1][0].a[1] == "parameters"):
+        return None
+    sig = it.a[1][0].a[0]
+    if not (sig.op == "call" and call_name(sig) == "inspect.signature" and len(sig.a[1]) == 1 and sig.a[1][0] is fn_t):
+        return None
+    if not tm.is_const(A.a[2], False):
+        return None
+    acc = set()
+    for K in PARAM_KINDS:
+        leaf = _leaf_for_kind(A.a[3], K)
+        if leaf is None:
+            return None
+        if tm.is_const(leaf, True):
+            acc.add(K)
+        elif not (leaf.op == "loopvar" and leaf.a[0] == lid):
+            return None
+    elt = D.a[1]
+    conds = list(D.a[3])
+    from_items = elt.op == "tuple" and len(elt.a) == 2 and elt.a[0].op == "sub" and elt.a[1].op == "sub" and elt.a[0].a[0] is elt.a[1].a[0] and tm.is_const(elt.a[0].a[1], 0) and tm.is_const(elt.a[1].a[1], 1) and D.a[2][0].op == "call" and call_name(D.a[2][0]) == ".items" and D.a[2][0].a[1][0] is kwa
+    member = [c2 for c2 in conds if c2.op == "cmp" and c2.a[0] == "in" and elt.op == "tuple" and c2.a[1] is elt.a[0]]
+    extra = [tm.show(c2, 3) for c2 in conds if c2 not in member]
+    if len(member) != 1:
+        return None
+    N = member[0].a[2]
+    if not (N.op == "loop" and N.a[0] == lid):
+        return None
+    names = set()
+    for K in PARAM_KINDS:
+        leaf = _leaf_for_kind(N.a[3], K)
+        if leaf is None:
+            return None
+        if leaf.op == "upd" and leaf.a[1] in ("method:add", "method:append"):
+            v = leaf.a[3].a[0] if leaf.a[3].op == "tuple" and len(leaf.a[3].a) == 1 else None
+            # the stored name is the parameter's own name: the key of .items() or param.name
+            own = v is not None and ((v.op == "sub" and tm.is_const(v.a[1], 0) and v.a[0].op == "iter") or (v.op == "attr" and v.a[1] == "name"))
+            if not own:
+                return None
+            names.add(K)
+        elif not (leaf.op == "loopvar" and leaf.a[0] == lid):
+            return None
+    return acc, names, from_items, extra
+
+
 def rule_filterimpl(ctx):
     """util.filter_kwargs forwards exactly the keywords named in the callee's signature."""
     f = ctx.program.func("util.filter_kwargs", "C03.FILTERIMPL")
@@ -642,6 +746,13 @@ def rule_filterimpl(ctx):
         kws = [v for n, v in c.kw if n == "**"]
         need(len(kws) == 1 and len(c.kw) == 1, "C03.FILTERIMPL", "unexpected keyword forwarding shape")
         kwt = kws[0]
+        by_kind = _filter_by_kind(kwt, kwa, fn_t, s)
+        if by_kind is not None:
+            acc, names, from_items, extra = by_kind
+            ctx.cache["filter_name_source"] = "signature"
+            yield ob("C03.FILTERIMPL", f, "util.filter_kwargs:passthrough", acc == {"VAR_KEYWORD"}, "all keywords are passed through exactly when the callee's signature has a **kwargs parameter (kinds that switch the filter off: %s)" % sorted(acc), node=c.node)
+            yield ob("C03.FILTERIMPL", f, "util.filter_kwargs:filter", from_items and names == {"POSITIONAL_OR_KEYWORD", "KEYWORD_ONLY"} and not extra, "a keyword is kept iff it names a parameter of kind %s of inspect.signature(callee), with its own value%s" % (sorted(names), "; extra conditions %s" % extra if extra else ""), node=c.node)
+            continue
         passthrough = kwt is kwa
         under_has_kwargs = any(call_name(cnd) == "util.has_kwargs" and p for cnd, p in symeval.pc_conds(c.pc))
         if passthrough:
